@@ -83,11 +83,11 @@ Qed.
 (* ---------- the four numbers a null model returns ---------- *)
 Definition triple_ok (c : Z * Z * Z) : Prop := let '(cxy, cxx, cyy) := c in cxy * cxy <= cxx * cyy /\ 0 <= cxx /\ 0 <= cyy.
 
-Theorem null_model_corr_range und n W isint close bs wf pf ints ords perms r : (0 < n)%nat -> pre und n W ->
-  null_model und n W isint close bs wf pf ints ords perms = Returned r ->
+Theorem null_model_corr_range und n W close bs wf pf ints ords perms r : (0 < n)%nat -> pre und n W ->
+  null_model und n W close bs wf pf ints ords perms = Returned r ->
   length (nm_corr r) = 4%nat /\ Forall triple_ok (nm_corr r).
 Proof.
-  intros Hn Hp H. destruct (null_model_inv und n W isint close bs wf pf ints ords perms r Hn Hp H) as (_ & _ & _ & _ & _ & F).
+  intros Hn Hp H. destruct (null_model_inv und n W close bs wf pf ints ords perms r Hn Hp H) as (_ & _ & _ & _ & _ & F).
   rewrite F. unfold corr4. split; [reflexivity|].
   constructor; [exact (corr3_cauchy_schwarz _ _ n)|].
   constructor; [exact (corr3_cauchy_schwarz _ _ n)|].
@@ -96,8 +96,8 @@ Proof.
 Qed.
 
 (* strengths kept exactly => the corresponding coefficient is 1 (triple (c, c, c)) *)
-Theorem null_model_corr_one und n W isint close bs wf pf ints ords perms r : (0 < n)%nat -> pre und n W ->
-  null_model und n W isint close bs wf pf ints ords perms = Returned r ->
+Theorem null_model_corr_one und n W close bs wf pf ints ords perms r : (0 < n)%nat -> pre und n W ->
+  null_model und n W close bs wf pf ints ords perms = Returned r ->
   let Wc := clear_diag W in
   ((forall j, (j < n)%nat -> str_in ppart (nm_W0 r) n j = str_in ppart Wc n j) ->
      exists c, nth 0 (nm_corr r) (0, 0, 0) = (c, c, c)) /\
@@ -108,7 +108,7 @@ Theorem null_model_corr_one und n W isint close bs wf pf ints ords perms r : (0 
   ((forall i, (i < n)%nat -> str_out npart (nm_W0 r) n i = str_out npart Wc n i) ->
      exists c, nth 3 (nm_corr r) (0, 0, 0) = (c, c, c)).
 Proof.
-  intros Hn Hp H Wc. destruct (null_model_inv und n W isint close bs wf pf ints ords perms r Hn Hp H) as (_ & _ & _ & _ & _ & F).
+  intros Hn Hp H Wc. destruct (null_model_inv und n W close bs wf pf ints ords perms r Hn Hp H) as (_ & _ & _ & _ & _ & F).
   rewrite F. unfold corr4. cbn [nth]. fold Wc.
   assert (K : forall x y, (forall i, (i < n)%nat -> y i = x i) -> exists c, corr3 x y n = (c, c, c)).
   { intros x y E. pose proof (corr3_equal_seq x y n E) as T. destruct (corr3 x y n) as [[cxy cxx] cyy].
